@@ -7,11 +7,15 @@
     genv <root>                        → "<type graph of the row in Gen.graphTable>\t-"
     gbuild <root>                      → "<model: does FromStruct return>\tbuilt"
     graph <root> <how> <value tokens>  → "<Graph.Code.check>\t<Graph.Spec.vStruct>"
+    hist <family> <order> <pos> T <tag runes> P <probe runes>
+                                       → "<Rules.Code.accepts tag probe>\t<Rules.Spec.accepts tag probe>"
+                                          (a function of the tag alone: the history plays no role)
 -/
 import Gozod.Model.TagParser
 import Gozod.Model.Tags
 import Gozod.Gen.TagTable
 import Gozod.Model.TagGraph
+import Gozod.Model.TagRules
 import Gozod.Gen.TagGraph
 namespace Gozod.Drv.C06
 open Gozod Gozod.Tags
@@ -79,6 +83,12 @@ def handle : List String → String
     match findRow root with
     | some r => (if Graph.Code.builds r.env then "built" else "crash:stack-overflow") ++ "\tbuilt"
     | none => "no-such-root\tbuilt"
+  | "hist" :: _fam :: _order :: _pos :: "T" :: rest =>
+    let tagToks := rest.takeWhile (· != "P")
+    let probeToks := (rest.dropWhile (· != "P")).drop 1
+    match tagToks.mapM String.toNat?, probeToks.mapM String.toNat? with
+    | some tag, some v => b2s (Rules.Code.accepts tag v) ++ "\t" ++ b2s (Rules.Spec.accepts tag v)
+    | _, _ => "bad-op"
   | "graph" :: root :: _how :: toks =>
     match findRow root, Graph.readVal (toks.length + 1) toks with
     | some r, some (v, []) => b2s (Graph.Code.check r.env v) ++ "\t" ++ b2s (Graph.Spec.vStruct r.env 0 v)
